@@ -42,7 +42,7 @@ fn glide_op(fs: f32) -> BoxedStrategy<GlideOp> {
         4 => (1u32..=8).prop_map(GlideOp::Run),
         4 => (1u32..=3000).prop_map(GlideOp::Run),
         2 => Just(GlideOp::RunSettle),
-        1 => (glide_time(fs), glide_time(fs), proptest::sample::select(vec![255u16, 256, 257, 512, 20, 3])).prop_map(|(a, b, n)| GlideOp::TimeBurst { a, b, n }),
+        1 => (glide_time(fs), glide_time(fs), proptest::sample::select(vec![255u16, 256, 257, 512, 20, 3]), proptest::bool::weighted(0.4)).prop_map(|(a, b, n, idle)| GlideOp::TimeBurst { a, b, n, idle }),
     ]
     .boxed()
 }
